@@ -34,6 +34,7 @@ def wellformed(cmd):
 
 class C07(MotionMonitor):
     prop = "C07"
+    plugin_share = 0.0      # the shape of generated commands is judged at the handlers; the plugin layer adds nothing to it
     quick_cases = 2500
     rule = ("value-hostile programs (relative round-off chains, tiny extrusions, inch conversion, coordinates up to 1e12, feed rates "
             "1e-5..1e19, merged deferred commands with tiny/huge/valueless parameters); every command the filter generated (not the "
